@@ -90,6 +90,14 @@ var c09Patterns = []string{"/m1", "/m2/{id}", "/m3/{id}/x", "/m4/a/b", `/m5/{n:\
 var c09Witness = map[string]string{"/m1": "/m1", "/m2/{id}": "/m2/7", "/m3/{id}/x": "/m3/7/x", "/m4/a/b": "/m4/a/b", `/m5/{n:\d+}`: "/m5/42",
 	"/pre/fix/r6": "/pre/fix/r6", "/pre/{z}/r7": "/pre/7/r7", "/m8/{-q}/e": "/m8/7/e"}
 
+// on a router without WithTrace, TRACE is an ordinary method that can be registered by hand
+func c09MethodsFor(rt *mwRouter) []string {
+	if rt.trace {
+		return gen.AnyMethods
+	}
+	return append(append([]string{}, gen.AnyMethods...), "TRACE")
+}
+
 func (w *mwWorld) names(prefix string, n int) ([]string, []muxMW) {
 	var ns []string
 	var ms []muxMW
@@ -397,7 +405,7 @@ func (w *mwWorld) handleVia(rt *mwRouter) bool {
 	}
 	e := rt.pats[pattern]
 	var free []string
-	for _, m := range gen.AnyMethods {
+	for _, m := range c09MethodsFor(rt) {
 		if e == nil || e.methods[m].base == nil {
 			free = append(free, m)
 		}
@@ -464,7 +472,7 @@ func (w *mwWorld) handle(rt *mwRouter) {
 	pattern := ref.Pick(r, c09Patterns)
 	e := rt.pats[pattern]
 	var free []string
-	for _, m := range gen.AnyMethods {
+	for _, m := range c09MethodsFor(rt) {
 		if e == nil || e.methods[m].base == nil {
 			free = append(free, m)
 		}
